@@ -291,6 +291,19 @@ def run_mux(c, o):
                 q.setup()
                 q.run_model()
             o.close("mux/mux_is_concatenation", q.get_val(Ld), np.concatenate(fl), rtol=0, atol=0, tags=tags)
+    # the index helpers the MPhys builder hands to external solvers address the same concatenation: the node indices of each surface
+    # pick that surface's nodes out of the flattened coordinate vector
+    from openaerostruct.mphys.utils import get_node_indices, get_number_of_nodes
+
+    o.close("mux/node_count", get_number_of_nodes(surfaces), n // 3, rtol=0, atol=0, tags=tags)
+    idx = get_node_indices(surfaces)
+    xyz = x.reshape(-1, 3)
+    off = 0
+    for s in surfaces:
+        nn = s["mesh"].shape[0] * s["mesh"].shape[1]
+        o.close("mux/node_indices", xyz[np.asarray(idx[s["name"]]).ravel() % (n // 3)], xyz[off:off + nn], rtol=0, atol=0, tags=tags, what="nodes addressed by get_node_indices of " + s["name"])
+        o.true("mux/node_indices", bool(np.array_equal(np.asarray(idx[s["name"]]).ravel(), np.arange(off, off + nn))), "get_node_indices of %s is not the running range %d..%d" % (s["name"], off, off + nn), tags=tags)
+        off += nn
     o.close("mux/fwd_equals_rev", Js["fwd"], Js["rev"], rtol=1e-14, atol=1e-14, tags=tags)
     expect = np.vstack([np.eye(n), np.eye(n)])
     o.close("mux/jacobian_is_permutation", Js["fwd"], expect, rtol=0, atol=1e-14, tags=tags, what="d(demux, mux o demux)/dx must be identity blocks")
